@@ -537,11 +537,61 @@ class C01(WorkerProp):
         # volume: files of several megabytes with windows of several megabytes, block sizes that are not powers of two (buffering and
         # read-ahead thresholds inside the sender must not change what a block carries)
         L.append("snd 65464 128 5000 1 0 gen:9437184:3 A128@0 A145@0")
+        # through the server: the blocks of a download are the bytes of the file that was NAMED - also when a neighbour's name differs from
+        # it only by a letter that some byte-wise shortcut could take for a separator or drop (U+042F, U+015C, U+4E5C, U+012F), by case, or by
+        # a trailing dot/space
+        from .p_server import rq
+        root = (self.sandbox + "/k0").encode().hex()
+        pairs = [("\u042fa", "a"), ("sub\u042fb", "sub/b"), ("\u015ca", "a"), ("x\u4e5cy", "x/y"), ("\u012fa", "a"), ("A", "a"), ("a.", "a"), ("a", "a.")]
+        for k, (asked, other) in enumerate(pairs):
+            fs = "srv/%s=gen:%d:%d,srv/%s=gen:%d:%d" % (asked, 21 + k, 3 + k, other, 27 + k, 100 + k)
+            for flags in ["-", "s"]:
+                L.append("req %s %s %s %s" % (root, flags, fs, rq("rrq", asked.encode(), rng.choice([(), (("blksize", 8),)])).hex()))
         if tier == "thorough":
             L.append("snd 1428 4000 5000 1 0 gen:9437184:5 A4000@0 A6609@0")
             L.append("snd 9000 1000 5000 1 0 gen:20000003:9 A1000@0 A2000@0 A2223@0")
             L.append("snd 512 65535 5000 1 0 gen:40000000:11 A65535@0 A12590@0")
         return L
+
+
+    retry_env = {"HARNESS_SLOW": "1"}
+
+    def oracle(self, line, impl):
+        if line.startswith("req "):
+            from .p_server import Case, parse_req_obs, parse_rq, recognised
+            if impl in ("abort", "panic") or not impl.startswith("r1="):
+                return ("server died or no observation: " + impl[:60], "died")
+            c = Case(line)
+            r1, conv, fs = parse_req_obs(impl)
+            kind, name, opts = parse_rq(c.dgram)
+            rel, _ = c.resolve(kind, name)
+            f = c.files.get(rel)
+            if f is None:
+                return None
+            rec = recognised(opts)
+            b = dict(rec).get("blksize", 512) if rec != "bad" else 512
+            toks = [t for t in (conv.split(" ") if conv not in ("-", ".") else []) if t[0] == "D"]
+            if not toks:
+                return ("a read request for the existing file %r is not served" % rel, "download-not-served")
+            for t in toks:
+                num, ln, h = t[1:].split(":")
+                blk = f[(int(num) - 1) * b:int(num) * b]
+                if int(ln) != len(blk) or int(h) != fnv(blk):
+                    return ("DATA %s of the download of %r does not carry that file's bytes" % (num, rel), "download-wrong-file")
+            return None
+        return WorkerProp.oracle(self, line, impl)
+
+    def nontrivial(self, line, impl):
+        return line.startswith("req ") or WorkerProp.nontrivial(self, line, impl)
+
+    def classify(self, line, impl, res):
+        if line.startswith("req "):
+            res.count("server-level-download")
+        else:
+            WorkerProp.classify(self, line, impl, res)
+
+    def shrink(self, line):
+        return [] if line.startswith("req ") else WorkerProp.shrink(self, line)
 
 
 class C07(WorkerProp):
